@@ -398,6 +398,27 @@ def _run_clouds(unit, rec):
                               script="import numpy as np, dreye\nprint(dreye.in_hull(np.array(%r), np.array(%r)))\n" % (P.tolist(), Q[:3].tolist()))
                 rec.outcome("cloud-exception")
                 continue
+            if sum(S) % 5 == 0:
+                # the exact combination routine on a batch: every row's weights, residual and verdict are those of the same target alone
+                # (cloud and targets in a unit in which the largest coordinate is not 1)
+                from dreye.api.convex import convex_combination
+
+                Pc, Qc = P * 50.0 + 3.0, Q[:: max(1, len(Q) // 6)][:6] * 50.0 + 3.0
+                rec.path()
+                rec.trans(1 + len(Qc))
+                try:
+                    Xb, nb, ib = convex_combination(Pc, Qc)
+                    okc = True
+                    for j in range(len(Qc)):
+                        x1, n1, i1 = convex_combination(Pc, Qc[j])
+                        if not (np.allclose(Xb[j], x1, rtol=0, atol=1e-9) and abs(nb[j] - n1) <= 1e-9 * (1 + abs(n1)) and bool(ib[j]) == bool(i1)):
+                            okc = False
+                            _v(rec, "g", dict(sig, api="convex_combination", target="batch-vs-single"), "convex_combination on a batch differs from the same target alone (residual %.6g vs %.6g)" % (nb[j], n1), dict(cloud=list(S), q=j),
+                               observed=dict(norm=nb[j], inside=bool(ib[j])), expected=dict(norm=n1, inside=bool(i1)))
+                            break
+                    rec.outcome("combination-batch/%s" % ("same" if okc else "differs"))
+                except Exception as e:  # noqa
+                    _v(rec, "g", dict(sig, api="convex_combination", exc=type(e).__name__), "convex_combination raised %r" % (e,), dict(cloud=list(S)))
             if hr is not None:
                 mg = O.hull_margin(P, Q)
                 for j, (a, g) in enumerate(zip(ans, mg)):
